@@ -468,17 +468,23 @@ class Profile:
         try:
             service_index = self.__services.index(service)
 
-            # Remove all handles used by this service
-            self.remove_service(service, handles_only=True)
+            # Forget every attribute registered from this service's handle on:
+            # the service may have grown or shrunk since it was registered and
+            # the services declared after it are about to move.
+            for handle in [h for h in self.__attr_db if h >= service.handle]:
+                del self.__attr_db[handle]
+            for handle in [h for h in self.__service_by_characteristic_handle
+                           if h >= service.handle]:
+                del self.__service_by_characteristic_handle[handle]
 
-            # Register all the handles back into our attribute DB
+            # Register all the handles back into our attribute DB
             self.add_service(service, handles_only=True)
 
-            # Update all other services
+            # Update all other services
             handle = service.end_handle
             for remaining_service in self.__services[service_index+1:]:
                 remaining_service.handle = handle + 1
-                self.update_service(remaining_service)
+                self.add_service(remaining_service, handles_only=True)
                 handle = remaining_service.end_handle
             self.__handle = handle + 1
             return True
